@@ -265,6 +265,15 @@ func policyName(p flag.ErrorHandling) string {
 	return map[flag.ErrorHandling]string{flag.ContinueOnError: "ContinueOnError", flag.ExitOnError: "ExitOnError", flag.PanicOnError: "PanicOnError"}[p]
 }
 
+// hasErrorText: something other than blank lines precedes the usage on the error stream (the wording is not judged)
+func hasErrorText(stderr string) bool {
+	i := strings.Index(stderr, "Usage:")
+	if i < 0 {
+		i = len(stderr)
+	}
+	return strings.TrimSpace(stderr[:i]) != ""
+}
+
 func usageOf(stderr, path string) bool {
 	u := "Usage: " + path
 	return strings.Contains(stderr, u+" ") || strings.Contains(stderr, u+"\n")
@@ -529,7 +538,7 @@ func c07Twice(c *core.Ctx) {
 			return
 		}
 	}
-	if !usageOf(o.Stderr, "app") || !strings.Contains(o.Stderr, "Error: ") {
+	if !usageOf(o.Stderr, "app") || !hasErrorText(o.Stderr) {
 		c.Violation("the second rejection by the same application object does not write the error and the usage to the error stream", map[string]interface{}{"stderr": truncateStr(o.Stderr, 300)}, nil)
 		return
 	}
@@ -670,7 +679,7 @@ func runC07(c *core.Ctx) {
 		c.Violation(fmt.Sprintf("the error %q is not on the error stream", tw.Err.Error()), map[string]interface{}{"stderr": truncateStr(o.Stderr, 400)}, nil)
 		return
 	}
-	if !strings.Contains(o.Stderr, "Error: ") {
+	if !hasErrorText(o.Stderr) {
 		c.Violation("no error message on the error stream", map[string]interface{}{"stderr": truncateStr(o.Stderr, 400)}, nil)
 		return
 	}
@@ -789,8 +798,8 @@ func c14One(c *core.Ctx, root *drive.Cmd, version bool, policy flag.ErrorHandlin
 			c.Violation(fmt.Sprintf("expected the long help of %q (%s + its long description)", e.node.Path(), want), map[string]interface{}{"stderr": truncateStr(o.Stderr, 400)}, nil)
 			return
 		}
-		if strings.Contains(o.Stderr, "Error: ") {
-			c.Violation("arguments were validated although help/version was requested", map[string]interface{}{"stderr": truncateStr(o.Stderr, 300)}, nil)
+		if e.kind == "HELP" && hasErrorText(o.Stderr) {
+			c.Violation("arguments were validated although help was requested (an error message precedes the usage)", map[string]interface{}{"stderr": truncateStr(o.Stderr, 300)}, nil)
 			return
 		}
 		if policy == flag.ExitOnError {
@@ -819,7 +828,7 @@ func c14One(c *core.Ctx, root *drive.Cmd, version bool, policy flag.ErrorHandlin
 				return
 			}
 		}
-		if !usageOf(o.Stderr, e.node.Path()) || !strings.Contains(o.Stderr, "Error: ") {
+		if !usageOf(o.Stderr, e.node.Path()) || !hasErrorText(o.Stderr) {
 			c.Violation(fmt.Sprintf("expected a usage error of %q", e.node.Path()), map[string]interface{}{"stderr": truncateStr(o.Stderr, 300)}, nil)
 			return
 		}
